@@ -306,6 +306,9 @@ func (s *Handler) ReloadConf(newConf *conf.Path) {
 	ctx := s.ctx
 
 	if !s.running {
+		// there's no routine that can receive the configuration;
+		// store it, it will be used on next start.
+		s.Conf = newConf
 		return
 	}
 
